@@ -135,7 +135,8 @@ unsigned char *decode(unsigned char const *begin,unsigned char const *end,unsign
 		begin+=4;
 		target+=3;
 	}
-	if(end!=begin)
+	// a single trailing character carries less than one byte (decoded_size() reports -1 for it)
+	if(end - begin > 1)
 		target+=bdecode(begin,target,end-begin);
 	return target;
 }
